@@ -138,6 +138,8 @@ structure Sess where
   starting : Bool := false
   ended : Bool := false
   mutex : Option ActorId := none
+  /-- (ghost) the actor that set `starting` -/
+  starter : Option ActorId := none
   deriving Repr, Inhabited
 
 structure Eng where
@@ -486,17 +488,18 @@ def stepSess (s : State) (a : ActorId) (l : Local) (c : Choice) : Option State :
       some ((s.finish a l e (.err .existing)).putS sid { x with mutex := none })
     else
       some ((s.put a { l with pc := .bLock, k := .start, lockF := true, ctxSess := none } e).putS sid
-        { x with starting := true, mutex := none })
+        { x with starting := true, mutex := none, starter := some a })
   | .ssRelock, .go => lockS .ssFinal
   | .ssFinal, .go =>
     if l.res ≠ .ok then
-      some ((s.finish a l e l.res).putS sid { x with starting := false, mutex := none })
+      some ((s.finish a l e l.res).putS sid { x with starting := false, mutex := none, starter := none })
     else if x.ended then
       -- s.engine.Abort(txn) while holding s.mutex
-      some ((s.put a { l with pc := .aLock, k := .startAbort } e).putS sid { x with starting := false })
+      some ((s.put a { l with pc := .aLock, k := .startAbort } e).putS sid
+        { x with starting := false, starter := none })
     else
       some ((s.finish a l { e with own := if e.txn = l.t then .sess sid else e.own } .ok).putS sid
-        { x with starting := false, txn := l.t, mutex := none })
+        { x with starting := false, txn := l.t, mutex := none, starter := none })
   | .scLock, .go => lockS .scBody
   | .scBody, .go =>
     if x.ended then some ((s.finish a l e (.err .sessEnded)).putS sid { x with mutex := none })
